@@ -843,6 +843,10 @@ class OpOperands(Sequence[SSAValue]):
     def __setitem__(self, idx: int, operand: SSAValue) -> None:
         operands = self._op._operands  # pyright: ignore[reportPrivateUsage]
         operand_uses = self._op._operand_uses  # pyright: ignore[reportPrivateUsage]
+        if idx < 0:
+            idx += len(operands)
+        if not 0 <= idx < len(operands):
+            raise IndexError("operand index out of range")
         operands[idx].remove_use(operand_uses[idx])
         operand.add_use(operand_uses[idx])
         new_operands = SSAValues((*operands[:idx], operand, *operands[idx + 1 :]))
@@ -2110,6 +2114,10 @@ class OpSuccessors(Sequence[Block]):
     def __setitem__(self, idx: int, successor: Block) -> None:
         successors = self._op._successors  # pyright: ignore[reportPrivateUsage]
         successor_uses = self._op._successor_uses  # pyright: ignore[reportPrivateUsage]
+        if idx < 0:
+            idx += len(successors)
+        if not 0 <= idx < len(successors):
+            raise IndexError("successor index out of range")
         successors[idx].remove_use(successor_uses[idx])
         successor.add_use(successor_uses[idx])
         new_successors = (*successors[:idx], successor, *successors[idx + 1 :])
